@@ -549,8 +549,12 @@ def approx_penetrance_test(
     fold_dist = distances['fold']
 
     # find the genes that really do meet the criteria
+    # (a gene below one of the *_min_th floors never does,
+    # however close the floor is to the threshold)
     eps = 1.0e-10
-    absolutely_valid = (distance_sq < eps)
+    absolutely_valid = np.logical_and(
+        distance_sq < eps,
+        np.logical_not(distances['invalid']))
 
     # if not enough genes really meet the criteria, add
     # the next best approximations (failing out any genes
